@@ -121,6 +121,9 @@ def explore_config(case):
     elems = alpha.elements(L, seed, small=is_dp)
     if is_dp:
         elems = alpha.reduced(elems, 80 if tier == "thorough" else 40)
+    if not is_dp:
+        from .. import harvest as _hv
+        elems = elems + [dict(tag="harvest(log)", p=p_, refs=None) for p_ in _hv.lie_members(B, "log", seed, tier) if gutil.elem_excluded(L, p_) is None]
     for e in elems:
         judge(res, name, B, L, AL, e["p"], "designed:" + e["tag"], case)
     # ---- direct numeric use of the API, object reuse, argument mutation (see numapi) -------------------
@@ -139,6 +142,9 @@ def explore_config(case):
     xs = alpha.elements(AL, seed, small=is_dp)
     if is_dp:
         xs = alpha.reduced(xs, 80 if tier == "thorough" else 40)
+    else:
+        from .. import harvest as _hv
+        xs = xs + [dict(tag="harvest(exp)", p=p_, refs=None) for p_ in _hv.lie_members(B, "exp", seed, tier)]
     for e in xs:
         x = e["p"]
         ths = [float(np.linalg.norm(v)) for s, v in zip(AL, gutil.slots_of(AL, x)) if s[0] == "rotvec"]
